@@ -15,7 +15,7 @@ PID = "C14"
 IMPORTS = "From OV Require Import Model.CFun."
 MODEL_VO = ["Model/CFun.vo", "Proofs/CFunCert.vo"]
 RULE = ("certificates: every public function (31 one-argument + pow/powf/log/polar) at structured dyadic points (all four quadrants, "
-        "both axes, 2^-10-adjacent to the branch points 0, +-1, +-i, both sides of every cut, 2^-9 <= |z| <= 10, |w| <= 3), one "
+        "both axes, 2^-10 / 2^-20-adjacent to the branch points 0, +-1, +-i, both sides of every cut at distances 2^-10, 2^-20, 2^-30, 2^-9 <= |z| <= 10, |w| <= 3), one "
         "kernel-checked Interval certificate per component of the implementation's answer against the R-model "
         "(tol 1e-9*max(1,|v|)); points exactly on a cut of the function are excluded from value comparison. "
         "search cases: cf.all / cf.seq / cf.powid / cf.polar* lines on the structured set plus seeded random dyadic points, "
@@ -81,10 +81,10 @@ def rand_point(g):
         k = g.below(10)
         if k == 0: y = 0.0
         elif k == 1: x = 0.0
-        elif k == 2: y = (1 if g.chance(1, 2) else -1) / 1024.0
-        elif k == 3: x = (1 if g.chance(1, 2) else -1) / 1024.0
         q = 2.0 ** 20 if r < 0.1 else 2.0 ** 10
         x, y = round(x * q) / q, round(y * q) / q
+        if k == 2: y = (1 if g.chance(1, 2) else -1) * 2.0 ** -g.choice([10, 15, 20, 25, 30, 35, 40])     # next to the real axis, either side
+        elif k == 3: x = (1 if g.chance(1, 2) else -1) * 2.0 ** -g.choice([10, 15, 20, 25, 30, 35, 40])   # next to the imaginary axis
         m = math.hypot(x, y)
         if 1e-3 <= m <= 10: return (x, y)
 
@@ -99,7 +99,7 @@ def generate(rng, tier):
     cases = []
     sp = [(c, fl(x), fl(y)) for (c, x, y) in structured_points()]
     for (c, x, y) in sp:
-        cases.append(mk_all((x, y), "structured:" + c.split("-")[0].rstrip("+")))
+        cases.append(mk_all((x, y), "structured:" + c.split("@")[0].split("-")[0].rstrip("+")))
         cases += mk_rt((x, y), "structured")
         cases.append(mk_polar((x, y), "polar"))
     g = rng.fork("rand")
@@ -253,15 +253,22 @@ def cert_points(rng, tier):
         if tier == "thorough":
             return [p for p in sp if not on_cut(name, (p[1], p[2]))]
         chosen = []
-        for c, k in (("q1", 2), ("q2", 2), ("q3", 2), ("q4", 2), ("axis+x", 1), ("axis-x", 1), ("axis+y", 1), ("axis-y", 1),
-                     ("bp0", 1), ("bp+1", 1), ("bp-1", 1), ("bp+i", 1), ("bp-i", 1)):
-            pool = [p for p in cats[c] if not on_cut(name, (p[1], p[2]))]
-            pool = g.shuffle(pool)
-            chosen += pool[:k]
-        # both sides of the real and of the imaginary axis (where every cut lies), at the same abscissa
-        for (ca, cb) in (("cut-real-above", "cut-real-below"), ("cut-imag-right", "cut-imag-left")):
-            i = g.below(len(cats[ca]))
-            chosen += [cats[ca][i], cats[cb][i]]
+        def take(c, k):
+            pool = g.shuffle([p for p in cats[c] if not on_cut(name, (p[1], p[2]))])
+            return pool[:k]
+        for c in ("q1", "q2", "q3", "q4"): chosen += take(c, 2)
+        for c in ("axis+x", "axis-x", "axis+y", "axis-y", "bp0"): chosen += take(c, 1)
+        for c in ("bp+1", "bp-1", "bp+i", "bp-i"): chosen += take("%s@%d" % (c, g.choice(BP_SCALES)), 1)
+        # both sides of the axis that carries the function's cuts, at every distance 2^-10, 2^-20, 2^-30 (same abscissa on
+        # both sides); one pair next to the other axis
+        ax = CUT_AXIS.get(name, "")
+        pairs = {"real": ("cut-real-above", "cut-real-below"), "imag": ("cut-imag-right", "cut-imag-left")}
+        for a in ("real", "imag"):
+            ca, cb = pairs[a]
+            scales = CUT_SCALES if a == ax else (g.choice(CUT_SCALES),)
+            for k in scales:
+                i = g.below(len(cats["%s@%d" % (ca, k)]))
+                chosen += [cats["%s@%d" % (ca, k)][i], cats["%s@%d" % (cb, k)][i]]
         return chosen
     for name in UNARY:
         plan[name] = [[('c', (p[1], p[2]))] for p in pick(name)]
